@@ -353,7 +353,14 @@ impl Check for C19 {
     }
 
     fn run(&self, p: &Params, tape: &mut Tape, ctx: &mut Ctx) {
-        let mut rp = Replayer { real: ChunkTimingStats::new(), model: ModelStats::default() };
+        // both public constructors must give the same object
+        let real = if tape.draw(2) == 1 {
+            ctx.count("constructed_with_default");
+            ChunkTimingStats::default()
+        } else {
+            ChunkTimingStats::new()
+        };
+        let mut rp = Replayer { real, model: ModelStats::default() };
         if p.section == 0 {
             // ---- history from a simulated polling session
             let flavor = [Flavor::AdaptiveFaults, Flavor::ScriptedFaults, Flavor::AdaptiveClean][tape.draw(3) as usize];
